@@ -719,3 +719,32 @@ mod tests {
     assert_eq!(nothing.0, empty_or.0);
   }
 }
+
+/// Verification hook for C07 (add-only, compiled only with `--cfg samlang_verif`): a canonical
+/// rendering of an abstract pattern node, so that the abstract patterns the checker hands to the
+/// exhaustiveness analysis can be compared with the Lean model's. `_` wildcard, `T(..)` tuple/struct,
+/// `Name(..)` variant, `O(a|b)` or-pattern (`O()` = nothing).
+#[cfg(samlang_verif)]
+pub(super) mod verif_hooks {
+  use super::{AbstractPatternNode, AbstractPatternNodeInner};
+
+  pub(crate) fn render(node: &AbstractPatternNode) -> String {
+    match node.0.as_ref() {
+      AbstractPatternNodeInner::Wildcard => "_".to_string(),
+      AbstractPatternNodeInner::StructLike { variant, elements } => {
+        let args = elements.iter().map(render).collect::<Vec<_>>().join(",");
+        match variant {
+          None => format!("T({args})"),
+          Some(c) => {
+            let dbg = format!("{:?}", c.variant_name);
+            let name = dbg.split('"').nth(1).unwrap_or(&dbg).to_string();
+            format!("{name}({args})")
+          }
+        }
+      }
+      AbstractPatternNodeInner::Or(choices) => {
+        format!("O({})", choices.iter().map(render).collect::<Vec<_>>().join("|"))
+      }
+    }
+  }
+}
